@@ -58,3 +58,112 @@ def pin_numbers(ctx, v):
             x.cell[0] = walk(x.cell[0]); return x
         return x
     return walk(v)
+
+def keyword_table(it, fmt):
+    """{role: python str or (str, str)} for an enum format value, using the struct field order of the current source"""
+    si = it.prog.si
+    out = {}
+    top = si.struct_fields('NarseseFormat', ['is_valid_atom_name', 'space', 'atom', 'compound', 'statement', 'sentence', 'task'])
+    def val(v):
+        if isinstance(v, Str): return v.py()
+        if isinstance(v, Agg) and v.ty == 'tuple': return tuple(val(x) for x in v.f)
+        return v
+    for sect, sname in (('space', 'NarseseFormatSpace'), ('atom', 'NarseseFormatAtom'), ('compound', 'NarseseFormatCompound'),
+                        ('statement', 'NarseseFormatStatement'), ('sentence', 'NarseseFormatSentence'), ('task', 'NarseseFormatTask')):
+        agg = fmt.f[top.index(sect)]
+        hints = {'space': ['parse', 'format_terms', 'format_items'], 'atom': ['prefix_word'], 'compound': ['connecter_product'],
+                 'statement': ['copula_inheritance'], 'sentence': ['punctuation_goal', 'truth_separator'], 'task': ['budget_separator', 'budget_brackets']}[sect]
+        names = [fs for rel, fs in si.structs[sname] if len(fs) == len(agg.f) and all(h in fs for h in hints)][0]
+        for n, v in zip(names, agg.f): out[sect + '.' + n] = val(v)
+    return out
+
+CONNECTER_ROLE = {'IntersectionExtension': 'connecter_intersection_extension', 'IntersectionIntension': 'connecter_intersection_intension',
+                  'DifferenceExtension': 'connecter_difference_extension', 'DifferenceIntension': 'connecter_difference_intension',
+                  'Product': 'connecter_product', 'ImageExtension': 'connecter_image_extension', 'ImageIntension': 'connecter_image_intension',
+                  'Conjunction': 'connecter_conjunction', 'Disjunction': 'connecter_disjunction', 'Negation': 'connecter_negation',
+                  'ConjunctionSequential': 'connecter_conjunction_sequential', 'ConjunctionParallel': 'connecter_conjunction_parallel'}
+COPULA_ROLE = {'Inheritance': 'copula_inheritance', 'Similarity': 'copula_similarity', 'Implication': 'copula_implication', 'Equivalence': 'copula_equivalence',
+               'ImplicationPredictive': 'copula_implication_predictive', 'ImplicationConcurrent': 'copula_implication_concurrent',
+               'ImplicationRetrospective': 'copula_implication_retrospective', 'EquivalencePredictive': 'copula_equivalence_predictive',
+               'EquivalenceConcurrent': 'copula_equivalence_concurrent',
+               'Instance': 'copula_instance', 'Property': 'copula_property', 'InstanceProperty': 'copula_instance_property', 'EquivalenceRetrospective': 'copula_equivalence_retrospective'}
+ATOM_ROLE = {'Word': 'prefix_word', 'VariableIndependent': 'prefix_variable_independent', 'VariableDependent': 'prefix_variable_dependent',
+             'VariableQuery': 'prefix_variable_query', 'Operator': 'prefix_operator', 'Placeholder': 'prefix_placeholder', 'Interval': 'prefix_interval'}
+
+def S(s): return [ord(c) for c in s]
+
+def term_tokens_surface(kw, t):
+    """token sequence (each a list of chars) of a term spec in the surface syntax; names may be lists of z3 chars"""
+    k = t[0]
+    if k in TERM_ATOMS:
+        nm = t[1]
+        return [S(kw['atom.' + ATOM_ROLE[k]]) + (S(nm) if isinstance(nm, str) else list(nm))]
+    if k == 'Placeholder': return [S(kw['atom.prefix_placeholder'])]
+    if k == 'Interval': return [S(kw['atom.prefix_interval']) + S(str(t[1]))]
+    sep = S(kw['compound.separator'])
+    def listing(items):
+        out = []
+        for i, x in enumerate(items):
+            if i: out.append(sep)
+            out += term_tokens_surface(kw, x)
+        return out
+    if k in ('SetExtension', 'SetIntension'):
+        l, r = kw['compound.brackets_set_extension' if k == 'SetExtension' else 'compound.brackets_set_intension']
+        return [S(l)] + listing(t[1]) + [S(r)]
+    if k in CONNECTER_ROLE:
+        l, r = kw['compound.brackets']
+        if k in TERM_IMAGES:
+            items = list(t[2]); items.insert(t[1], ('Placeholder',))
+        elif k == 'Negation': items = [t[1]]
+        elif k in ('DifferenceExtension', 'DifferenceIntension'): items = [t[1], t[2]]
+        else: items = t[1]
+        return [S(l), S(kw['compound.' + CONNECTER_ROLE[k]]), sep] + listing(items) + [S(r)]
+    if k in COPULA_ROLE:
+        l, r = kw['statement.brackets']
+        return [S(l)] + term_tokens_surface(kw, t[1]) + [S(kw['statement.' + COPULA_ROLE[k]])] + term_tokens_surface(kw, t[2]) + [S(r)]
+    raise ValueError(t)
+
+def fnum(x):
+    from models_str import fmt_f64
+    return S(fmt_f64(x))
+
+def narsese_tokens_surface(kw, v):
+    def floats(br, sep, xs):
+        out = [S(br[0])]
+        for i, x in enumerate(xs):
+            if i: out.append(S(sep))
+            out.append(fnum(x))
+        return out + [S(br[1])]
+    def stamp(st):
+        if st[0] == 'Eternal': return []
+        l, r = kw['sentence.stamp_brackets']
+        body = {'Past': 'stamp_past', 'Present': 'stamp_present', 'Future': 'stamp_future', 'Fixed': 'stamp_fixed'}[st[0]]
+        return [S(l) + S(kw['sentence.' + body]) + (S(str(st[1])) if st[0] == 'Fixed' else []) + S(r)]      # one token: the property does not promise spaces inside a stamp
+    def sentence(p, term, st, tr):
+        out = term_tokens_surface(kw, term) + [S(kw['sentence.punctuation_' + p.lower()])] + stamp(st)
+        if tr: out += floats(kw['sentence.truth_brackets'], kw['sentence.truth_separator'], tr)
+        return out
+    if v[0] == 'Term': return term_tokens_surface(kw, v[1])
+    if v[0] == 'Sentence': return sentence(v[1], v[2], v[3], v[4])
+    return floats(kw['task.budget_brackets'], kw['task.budget_separator'], v[1]) + sentence(v[2], v[3], v[4], v[5])
+
+def value_to_spec(v):
+    """interpreter value (enum Narsese/Term/...) -> spec with names as char lists (so de-duplicated sets are reflected)"""
+    def term(t):
+        t = unbox(t); k = t.variant
+        if k in TERM_ATOMS: return (k, list(t.f[0].ch))
+        if k == 'Placeholder': return (k,)
+        if k == 'Interval': return (k, t.f[0])
+        if k in TERM_SETS: return (k, [term(x) for x in t.f[0].items])
+        if k in TERM_VECS: return (k, [term(x) for x in t.f[0].items])
+        if k in TERM_IMAGES: return (k, t.f[0], [term(x) for x in t.f[1].items])
+        if k == 'Negation': return (k, term(t.f[0]))
+        return (k, term(t.f[0]), term(t.f[1]))
+    def stamp(s): return (s.variant,) + tuple(s.f)
+    def sent(s):
+        if s.variant in ('Judgement', 'Goal'): return (s.variant, term(s.f[0]), stamp(s.f[2]), tuple(s.f[1].f))
+        return (s.variant, term(s.f[0]), stamp(s.f[1]), ())
+    if v.variant == 'Term': return ('Term', term(v.f[0]))
+    if v.variant == 'Sentence':
+        p, t, st, tr = sent(v.f[0]); return ('Sentence', p, t, st, tr)
+    p, t, st, tr = sent(v.f[0].f[0]); return ('Task', tuple(v.f[0].f[1].f), p, t, st, tr)
